@@ -137,3 +137,24 @@ Example ex_shutdown_completes :
                              LExit 0; LFinish 0; LShutJoin; LShutSwap; LShutSwap; LShutEnd; LUnregWake 1; LUnregEnd 1] = Some (s, tr) /\
                s_sd s = SdDone /\ submitted tr 1 = [2] /\ exited tr 1 = [] /\ exited tr 0 = [1].
 Proof. eexists. eexists. split; [vm_compute; reflexivity|]. vm_compute. repeat split. Qed.
+
+(* ---------------------------------------------------------------- the boundaries of the guarantee, made explicit *)
+
+(* Why the discipline premise is needed: from a state in which client 0's UnregisterClient() is about to run its final
+   section, the pool WOULD accept a submission (the labels forbid it: the owner is inside SetThreadPool()), hand it to a
+   thread, and the final section would then take the client away while that thread still holds the Message -- the handler
+   would run after SetThreadPool(NULL) has returned. *)
+Example ex_discipline_needed :
+  exists s tr s1, run (init 1) [LRegister 0; LUnregBegin 0] = Some (s, tr) /\ tget 0 (s_unreg s) = Some UFinal /\
+                  step s (LSubmit 0 5) = None /\
+                  pool_send s 0 5 = (s1, SendOk) /\ inflight (unreg_end s1 0) 0 = [5] /\ tget 0 (s_reg (unreg_end s1 0)) = None.
+Proof. eexists. eexists. eexists. split; [vm_compute; reflexivity|]. vm_compute. repeat split. Qed.
+
+(* A pool whose Shutdown() has run stays dead (_shuttingDown is never reset): it still registers clients and accepts
+   Messages (B_NO_ERROR) but never dispatches them, so an UnregisterClient() on it would wait for ever.  The theorems are
+   therefore stated for s_shut = false / s_sd <> SdDone; the harness never un-registers from a dead pool. *)
+Example ex_dead_pool_accepts_and_strands :
+  exists s tr, run (init 1) [LShutBegin; LShutSwap; LShutSwap; LShutEnd; LRegister 1; LSubmit 1 9; LUnregBegin 1] = Some (s, tr) /\
+               s_sd s = SdDone /\ submitted tr 1 = [9] /\ tget 1 (s_unreg s) = Some (UWaiting false) /\
+               s_thr s = [] /\ s_shut s = true /\ qof (s_pend s) 1 = [9].
+Proof. eexists. eexists. split; [vm_compute; reflexivity|]. vm_compute. repeat split. Qed.
